@@ -544,7 +544,7 @@ def gen_cases(rng, tier):
                 if rng.random() < 0.1:
                     cs_.append(pre_case(kindname + '_segwit_ht', mode, tok, p,
                                         rng.choice([0, 4, 0x41, 0x101, 0x1ff, 0x84, 0xffffffff, 1 << 32, 0x9f]), wt))
-            if rng.random() < 0.04:      # the other path for the same input (outside the property; model only)
+            if mode == 'api' and rng.random() < 0.04:      # the other path for the same input (outside the property; model only)
                 cs_.append(pre_case(kindname + '_cross', mode, tok, p, rng.choice([1, 3]), 'sw' if wt == 'leg' else 'leg'))
         if rng.random() < 0.1:           # sign_id beyond the inputs
             cs_.append(pre_case(kindname + '_oob', mode, tok, n + rng.randrange(3), 1, rng.choice(['leg', 'sw'])))
@@ -584,6 +584,8 @@ def gen_cases(rng, tier):
                 x['keys'], x['m'] = [pub(j) for j in js], m
                 tx = gen_tx(rng, ['p2pkh'])
                 tx['ins'] = [x]
+                if tx['ver'] == 1 and 0 < x['seq'] < 0x80000000:
+                    tx['ver'] = 2
                 emit(tx, 'api', 'msweep', all_ht=False)
     # ---- output counts across the CompactSize boundary; SINGLE with and without a matching output
     for n_out in ([0, 252, 253, 254, 300] if not big else [0, 251, 252, 253, 254, 255, 300, 1000]):
@@ -859,7 +861,7 @@ def _legacy_non_all(c):
 
 
 KNOWN_CLASSES = {
-    'index_n_not_position': lambda c, io, mo: _perm(c),
+    # index_n != list position was repaired (fixes/C01-2): no class for it, the permuted-index stream must pass
     'legacy_non_all_hashtype': lambda c, io, mo: _legacy_non_all(c),
 }
 
